@@ -22,6 +22,17 @@ fn main() {
     if args[1] == "--child-build" {
         std::process::exit(checks::c05::child_main());
     }
+    if args[1].starts_with("MIRI-") {
+        install_panic_hook();
+        let code = match args[1].as_str() {
+            "MIRI-purity" => checks::miri_entry::purity(if cfg!(miri) { 3 } else { 8 }, if cfg!(miri) { 3 } else { 12 }),
+            "MIRI-matrices" => checks::miri_entry::matrices(),
+            "MIRI-vectors" => checks::miri_entry::vectors(),
+            "MIRI-tables" => checks::miri_entry::tables(),
+            _ => 2,
+        };
+        std::process::exit(code);
+    }
     if args[1] == "--gamma" {
         let a: f64 = args[2].parse().unwrap();
         let p: f64 = args[3].parse().unwrap();
